@@ -1,3 +1,8 @@
+(* NOTE on the read loop: the skeleton's `rd` thread is a CANCELLABLE reader (a file descriptor: terminal or pipe, as in
+   the property's statement): ReleaseTerminal's Cancel() makes a blocked Read return.  For a plain io.Reader the
+   cancelreader library cannot interrupt a Read in progress; that case is outside this theorem (and outside the
+   property's "file-descriptor input" clause).  The failure paths of ReleaseTerminal / RestoreTerminal (term.Restore or
+   MakeRaw returning an error) are not modelled either. *)
 (* C17 — Exec hands the terminal over cleanly (control half): while the external command runs the
    renderer's ticker has been stopped (handshake) and the read loop is not reading, signals are
    ignored and the terminal is in its restored state; afterwards ticker and reader run again. *)
